@@ -106,6 +106,8 @@ func cmdCases(args []string) {
 		obs, err = cases.ConfigClosure(w, raws)
 	case "upstream":
 		obs, err = cases.Upstream(w, raws)
+	case "reconfig":
+		obs, err = cases.Reconfig(w, raws)
 	case "keycodec":
 		obs, err = cases.KeyCodec(w, raws)
 	case "proxyxform":
